@@ -421,6 +421,34 @@ func main() {
 	cases := &hutil.CaseFile{Dir: *out, Stem: "cases_ticker",
 		Header: "From Coq Require Import List Bool Arith ZArith NArith.\nImport ListNotations.\nFrom AM Require Import Model.Ticker Model.TickerCheck.\n",
 		Footer: func(int) string { return "Definition M := Eval vm_compute in ticker_mismatches cases.\nPrint M.\n" }}
+	// Last resort against a machine so loaded that even the 3x runs woke up late: whatever is still rejected is run again
+	// ALONE, one script at a time, with every time multiplied by 10 (period 0.4-1.2 s, margins >= 120 ms), twice.  Only a
+	// script rejected there as well is reported (and the framework then replays it once more before it counts).
+	for i := range scripts {
+		if len(results[i].fs) == 0 {
+			continue
+		}
+		for attempt := 5; attempt <= 6 && len(results[i].fs) > 0; attempt++ {
+			cur := scaled(scripts[i], 1)
+			if scripts[i].PeriodUs < 400000 {
+				f := int64(10)
+				if scripts[i].PeriodUs >= 120000 { // already scaled by 3
+					f = 4
+				}
+				cur = scaled(scripts[i], f)
+			}
+			o := runScript(cur)
+			o.Attempt = attempt
+			fs := judge(cur, o)
+			if len(fs) == 0 {
+				scripts[i] = cur
+				results[i] = result{o, nil, attempt, append(results[i].transient, "accepted when run alone at a larger time scale")}
+			} else {
+				results[i].fs, results[i].o, results[i].attempts = fs, o, attempt
+				scripts[i] = cur
+			}
+		}
+	}
 	for i, s := range scripts {
 		res := results[i]
 		for _, f := range res.fs {
